@@ -17,8 +17,15 @@ columns of .mpt/.P00/.dfr are negated).  A library exception on such a file is a
 
 Latitude / things not demanded: labels, paths and uuids of the returned DataSets; which parser answers as long as the
 data are right; files outside the detection contract are never generated (comma decimal with comma separator, header
-text containing the separator).  TOL is 1e-9 relative: pandas' python-engine float conversion is not correctly
-rounded (measured up to 9.8e-13 relative on repr strings such as 0.000101...), every mutant effect is O(1).
+text containing the separator).  Extension-less tables whose frequency header is literally the signature line of an
+instrument layout ('freq/Hz' + tabs = the .mpt table, 'Freq(Hz)' = the .z table) are not generated either: the
+documented brute force legitimately reads them as that layout (they are generated with an extension / file_format).
+TOL is 1e-9 relative: pandas' python-engine float conversion is not correctly rounded (measured up to 1.0e-12
+relative on repr strings such as 0.000101..., 1.8e-12 after the CLI round trip), every mutant effect is >= 4e-2.
+
+Known finding (open): C06/noext-answered-by:parse_i2b:csv - an extension-less space-separated three-column table is
+claimed by parse_i2b during the brute force.  One-point tables and decimal-comma tables with "ragged" comma counts
+were defects found by this check and repaired in the tree (reverting either repair is a self-test mutant).
 """
 import contextlib
 import io
@@ -186,7 +193,7 @@ def compare(data_sets, expected, norm):
             rz = float(max(np.max(np.abs(Z.real - eZ.real) / np.abs(eZ.real)), np.max(np.abs(Z.imag - eZ.imag) / np.abs(eZ.imag))))
         if not (rf <= TOL):
             i = int(np.argmax(np.abs(f - ef) / np.abs(ef)))
-            probs.append(("frequency", f"sweep {k} point {i}: frequency {f[i]!r} returned, {ef[i]!r} written (rel {rf:.3g})"))
+            probs.append(("frequency", f"sweep {k} point {i}: frequency {float(f[i])!r} returned, {float(ef[i])!r} written (rel {rf:.3g})"))
         elif not (rz <= TOL):
             i = int(np.argmax(np.abs(Z - eZ) / np.abs(eZ)))
             tol_abs = 1e-6 * np.abs(eZ)
@@ -198,7 +205,7 @@ def compare(data_sets, expected, norm):
                 kind = "both-signs"
             else:
                 kind = "impedance"
-            probs.append((kind, f"sweep {k} point {i} (f={ef[i]!r}): Z={complex(Z[i])!r} returned, {complex(eZ[i])!r} written (rel {rz:.3g})"))
+            probs.append((kind, f"sweep {k} point {i} (f={float(ef[i])!r}): Z={complex(Z[i])!r} returned, {complex(eZ[i])!r} written (rel {rz:.3g})"))
         else:
             worst = max(worst, rf, rz)
     return probs, worst, points
@@ -410,7 +417,7 @@ def run_job(job, res):
 # case generation
 # ------------------------------------------------------------------------------------------------
 QUICK = {"rand_csv": 14000, "triple_rep": 3, "inst": 400, "df": 3000, "batch": 100}
-THOROUGH = {"rand_csv": 160000, "inst": 6000, "df": 40000, "batch": 250}
+THOROUGH = {"rand_csv": 100000, "inst": 6000, "df": 40000, "batch": 250}
 
 
 def _rand_csv_configs(seed_list, count):
